@@ -37,7 +37,8 @@ def oracle(p):
                     V('push_stream succeeded although a push rule is violated', {'conditions': conds, 'parent': sid, 'promised': promised})
                 valid_req = [tuple(h) for h in hs] == [tuple(h) for h in t2.REQ]
                 if not okk and all(conds.values()) and valid_req and _conn.err_name(parts) not in ('TooManyStreamsError',):
-                    V('push_stream was refused although every push rule is satisfied', {'parent': sid, 'promised': promised, 'outcome': parts[0]})
+                    V('push_stream was refused although every push rule is satisfied',
+                      {'parent': sid, 'promised': promised, 'outcome': parts[0], 'conn_state': prev[3]})
             if op[0] == 'Receive' and len(op[1]) == 1 and op[1][0][0][0] == 'PushPromise' and op[1][0][0][3][0] == 'Decoded':
                 rf = op[1][0][0]
                 if client and cur(prev[11], 2, 1) == 0 and not (parts[0][0] == 1):
@@ -52,6 +53,14 @@ def oracle(p):
                         V('a push on a pushed stream was accepted', {'parent': rf[1]})
         prev = parts
     return bad
+
+
+def finding_of(v):
+    # F-C22-1: exactly a ProtocolError from the connection state machine of a server that is in CLIENT_OPEN
+    d = v.get('detail') or {}
+    if v['rule'] == 'push_stream was refused although every push rule is satisfied' and d.get('conn_state') == 1 and d.get('outcome') == [1, 0, 1]:
+        return 'F-C22-1'
+    return None
 
 
 def scenarios(run):
@@ -75,12 +84,15 @@ def scenarios(run):
             out.append((cfg, z + [('UpdateSettings', [(2, 0)]), RX(('PushPromise', 1, 20, ('Decoded', t2.REQ)))]))                         # disabled, not yet acknowledged
             out.append((cfg, z + [('UpdateSettings', [(2, 0)]), RX(('Settings', True, [])), RX(('PushPromise', 1, 20, ('Decoded', t2.REQ)))]))
         else:
+            # F-C22-1: the server application sent HEADERS on a fresh even stream before the first request
+            out.append((cfg, [('Initiate',), ('SendHeaders', 2, t2.RESP, 0, False, None, None, None), RX(('Headers', 3, False, None, ('Decoded', t2.REQ))),
+                              ('PushStream', 3, 6, t2.REQ, 0)]))
             out.append((cfg, z + [RX(('Settings', False, [(2, 0)])), ('PushStream', 1, 20, t2.REQ, 0), RX(('Settings', False, [(2, 1)])), ('PushStream', 1, 20, t2.REQ, 0)]))
             out.append((cfg, z + [('PushStream', 1, 20, t2.BAD[0], 0), ('PushStream', 1, 20, t2.RESP, 0), ('PushStream', 1, 22, t2.REQ, 0), ('PushStream', 1, 20, t2.REQ, 0)]))
     return out
 
 
-SPEC = dict(parts=PARTS, weights=WEIGHTS, rf_weights=RF, n_quick=200, n_thorough=5000, n_ops=30, oracle=oracle, scenarios=scenarios,
+SPEC = dict(parts=PARTS, weights=WEIGHTS, rf_weights=RF, n_quick=200, n_thorough=5000, n_ops=30, oracle=oracle, finding_of=finding_of, scenarios=scenarios, extra_obligations=1,
             nontrivial=lambda p: any(op[0] == 'PushStream' or (op[0] == 'Receive' and any(e[0][0] == 'PushPromise' for e in op[1])) for op in p['ops']),
             rule='push-heavy programs: push_stream on parents in every state (zoo) with promised ids new / used / odd / zero, ENABLE_PUSH toggled by either side with and without '
                  'acknowledgement, PUSH_PROMISE received on every kind of stream, pushes on pushed streams on both ends; compared with the model and judged by the push rules '
@@ -89,6 +101,9 @@ SPEC = dict(parts=PARTS, weights=WEIGHTS, rf_weights=RF, n_quick=200, n_thorough
 
 
 def check(run):
+    from harness import common
+    with common.Lock():
+        common.build(['Properties/C22_refuted.vo'])
     return _conn.conn_check(run, SPEC)
 
 
